@@ -1,1 +1,3 @@
 import Tx3Proofs.C15
+import Tx3Proofs.C06
+import Tx3Proofs.C07
